@@ -5,6 +5,7 @@ package checks
 import (
 	"encoding/json"
 	"fmt"
+	"os"
 	"path/filepath"
 	"strconv"
 	"strings"
@@ -244,6 +245,20 @@ func c02CLI(c *fw.Ctx, cs c02Case, text string, recs []sm.Record, o clidrv.Opts,
 		c.Violation("cli-total", cs, fmt.Sprintf("`klog %s` (exit %d, %s) printed\n%q\nexpected\n%q", strings.Join(args, " "), r.Code, r.Err, r.Stdout, want))
 		return
 	}
+	// the same records spread over two input files (cut after the first record) evaluate to the same
+	if parts := c02Split(text, recs); parts != nil && !now {
+		// (two directories, the same file name)
+		os.MkdirAll(filepath.Join(dir, "2023"), 0755)
+		os.MkdirAll(filepath.Join(dir, "2024"), 0755)
+		pa := clidrv.WriteFile(filepath.Join(dir, "2023"), "part.klg", parts[0])
+		pb := clidrv.WriteFile(filepath.Join(dir, "2024"), "part.klg", parts[1])
+		r2 := clidrv.Run(home, o, append(append([]string{}, args...), pa, pb)...)
+		if r2.Panicked || r2.Code != 0 || strings.Replace(r2.Stdout, "!\n", "\n", 1) != want {
+			c.Violation("cli-total-two-files", cs, fmt.Sprintf("`klog %s A B` with the records spread over two files (exit %d, panic %v) printed\n%q\nexpected\n%q", strings.Join(args, " "), r2.Code, r2.PanicVal, r2.Stdout, want))
+			return
+		}
+		c.Count("two_file_runs", 1)
+	}
 	// json
 	jargs := []string{"json"}
 	if now {
@@ -480,4 +495,26 @@ func printTotalsColumn(out string) (cols []int, bad string) {
 		cols = append(cols, d.Mins)
 	}
 	return cols, ""
+}
+
+// c02Split cuts a valid text after its first record (at the line after the record's last line); nil if there is
+// only one record.
+func c02Split(text string, recs []sm.Record) []string {
+	if len(recs) < 2 {
+		return nil
+	}
+	lines := sm.SplitLines(text)
+	cut := recs[0].LastLine // 1-based last line of record 0 = number of lines in part A
+	if cut <= 0 || cut >= len(lines) {
+		return nil
+	}
+	var a, b strings.Builder
+	for i, l := range lines {
+		if i < cut {
+			a.WriteString(l.Text + l.EOL)
+		} else {
+			b.WriteString(l.Text + l.EOL)
+		}
+	}
+	return []string{a.String(), b.String()}
 }
